@@ -19,7 +19,7 @@ import (
 
 func c33TypesDecoders() []ref.C33Decoder {
 	var bodyCat, headCat, babeCat, bcCat, gcCat, votersCat []ref.C33Valid
-	for _, exts := range [][][]byte{{}, {ref.C14Tame(3, 1)}, {nil, ref.C14Tame(64, 2)}, {ref.C14Tame(1, 0), ref.C14Tame(7, 3), ref.C14Tame(2, 0)}} {
+	for _, exts := range [][][]byte{{}, {ref.C14Tame(4, 1)}, {nil, ref.C14Tame(64, 2)}, {ref.C14Tame(5, 0), ref.C14Tame(7, 3), ref.C14Tame(4, 0)}} {
 		bodyCat = append(bodyCat, ref.C33Valid{Name: fmt.Sprintf("body of %d extrinsics", len(exts)), Enc: ref.C14RefBody(exts)})
 	}
 	for _, h := range ref.C14SmallHeaders() {
